@@ -12,7 +12,7 @@
 import ast
 
 from ..report import Result, Finding
-from ..loader import walk_own, norm, AnalysisError
+from ..loader import walk_own, norm, AnalysisError, expand_locals
 from ..recorder import _self_attr
 from ..predeval import eval_pred, Undecidable, Rec
 from . import recmodel as rm
@@ -337,27 +337,19 @@ def incomplete_flag_clause(ctx, res, cc, prop, cid):
                 store = n
     if store is None:
         raise AnalysisError('anchor-lost role=incomplete flag store')
-    expr = store.value
-    defs = {}
-    for n in walk_own(pm.node):
-        if isinstance(n, ast.Assign) and isinstance(n.targets[0], ast.Name):
-            defs[n.targets[0].id] = n.value
-    hops = 0
-    while isinstance(expr, ast.Name) and expr.id in defs and hops < 4:
-        expr = defs[expr.id]
-        hops += 1
-    # the collection it ranges over: a local assigned from the extractor over the recording
+    # explaining variables are seen through; the collection the expression ranges over is the extractor applied to the recording
+    expr = expand_locals(pm.node, store.value)
     coll = None
-    for x in ast.walk(expr):
-        if isinstance(x, ast.comprehension) and isinstance(x.iter, ast.Name):
-            coll = x.iter.id
     src_ok = False
     direct = None
-    if coll and coll in defs and isinstance(defs[coll], ast.Call) and isinstance(defs[coll].func, ast.Attribute) and \
-            defs[coll].func.attr == roles.extractor.name:
-        c = defs[coll]
-        src_ok = bool(c.args) and isinstance(c.args[0], ast.Name) and c.args[0].id == pm.params[0]
-        direct = any(k.arg == 'direct_access' and isinstance(k.value, ast.Constant) and k.value.value is True for k in c.keywords)
+    for x in ast.walk(expr):
+        if isinstance(x, ast.comprehension) and isinstance(x.iter, ast.Call) and isinstance(x.iter.func, ast.Attribute) and \
+                x.iter.func.attr == roles.extractor.name:
+            c = x.iter
+            src_ok = bool(c.args) and isinstance(c.args[0], ast.Name) and c.args[0].id == pm.params[0]
+            direct = any(k.arg == 'direct_access' and isinstance(k.value, ast.Constant) and k.value.value is True for k in c.keywords)
+            coll = '__recorded_outputs__'
+            x.iter = ast.Name(id=coll, ctx=ast.Load())
     op_alias = const_of(roles, 'OPERATION_OUTPUT_ALIAS')
     kb_out = roles.key_builders['output']
     tmpl = None
